@@ -952,6 +952,111 @@ func vfC11RequireEMSOnResumption(t *testing.T, res *vfResult, tightened string) 
 	}
 }
 
+// vfC11DisjointALPNOnResumption: "the ... ALPN protocol come[s] from both lists. When no common value exists the handshake
+// fails on both sides with an alert": also when the handshake is an abbreviated one. The stored session was made without
+// ALPN; the second connection's lists have nothing in common (control: a full handshake with those lists).
+func vfC11DisjointALPNOnResumption(t *testing.T, res *vfResult, resumed bool) {
+	res.Eval(1)
+	cS, sS := vfNewMemStore("c"), vfNewMemStore("s")
+	first := vfC14Cfg("ecdsa", "same")
+	id := fmt.Sprintf("disjoint-alpn/resumed=%v", resumed)
+	if resumed {
+		if c1 := vfC14Connect(first, cS, sS, nil, false); !c1.CompletedBoth || len(vfC14ClientEntry(cS).ID) == 0 {
+			res.Count("disjoint_alpn_setup_failed", 1)
+
+			return
+		}
+	}
+	second := first
+	second.ALPN = 4
+	c2 := vfC14Connect(second, cS, sS, nil, false)
+	res.NonTrivial(id)
+	res.Count("disjoint_alpn_cases", 1)
+	abbreviated := c2.HasSH && !c2.HasSHD && !c2.HasCert
+	res.Seen("disjoint_alpn_outcomes", fmt.Sprintf("%s: completed=%v abbreviated=%v client=%s server=%s", id, c2.CompletedBoth, abbreviated, vfErrNorm(c2.CErr), vfErrNorm(c2.SErr)))
+	switch {
+	case c2.CErr == nil || c2.SErr == nil:
+		res.Violate(fmt.Sprintf("C11:completed-without-common-alpn:resumed=%v", resumed),
+			fmt.Sprintf("%s: the two ALPN lists have no protocol in common, yet the handshake (abbreviated: %v) completed: client=%v server=%v", id, abbreviated, c2.CErr, c2.SErr),
+			map[string]any{"disjoint_alpn": resumed})
+	case c2.AlertsC+c2.AlertsS == 0:
+		res.Violate(fmt.Sprintf("C11:failure-without-alert:disjoint-alpn:resumed=%v", resumed), id+": refused without any alert on the wire", map[string]any{"disjoint_alpn": resumed})
+	default:
+		res.Count("disjoint_alpn_refused_with_alert", 1)
+	}
+}
+
+// vfC11StrippedSupportedVersions: both endpoints allow DTLS 1.2 and 1.3 and the server verifies hellos. Somebody on the
+// path removes supported_versions from the first, cookie-less ClientHello only. "The protocol version ... is the highest
+// both allow": the handshake must not complete at DTLS 1.2.
+func vfC11StrippedSupportedVersions(t *testing.T, res *vfResult, full bool) {
+	res.Eval(1)
+	cfg := vfBaseCfg(vfSuiteInfo{Name: "default", Auth: "ecdsa"}, "ecdsa")
+	cfg.CVer, cfg.SVer, cfg.HelloVerify, cfg.Curves = "dual", "dual", true, 1
+	if full {
+		cfg.Verify, cfg.SRTP, cfg.CIDc, cfg.CIDs = true, 2, 4, 4
+	}
+	id := fmt.Sprintf("stripped-supported-versions/full-hello=%v", full)
+	n := vfNewNet()
+	co, so := cfg.Options(nil, nil)
+	p, err := vfNewPair(n, co, so)
+	if err != nil {
+		res.Count("config_rejected", 1)
+
+		return
+	}
+	stripped := 0
+	n.SetOnSend(func(n *vfNet, w *vfWire) {
+		if w.From != "c" || stripped > 0 {
+			n.Deliver(w.Dst, w.Data, vfAddrOf(w.From))
+
+			return
+		}
+		recs, ok := vfParseDatagram(w.Data, 0)
+		var dg []byte
+		for _, rc := range recs {
+			h, rest, okh := vfParseHS(rc.Body)
+			if !ok || rc.Unified || rc.Type != 22 || rc.Epoch != 0 || !okh || len(rest) != 0 || h.Type != 1 || h.FragOff != 0 || h.FragLen != h.Length {
+				dg = append(dg, rc.Raw...)
+
+				continue
+			}
+			hello, okp := vfParseHello(h.Body, true)
+			if !okp {
+				dg = append(dg, rc.Raw...)
+
+				continue
+			}
+			var exts []vfExt
+			for _, e := range hello.Exts {
+				if e.Type != 43 {
+					exts = append(exts, e)
+				}
+			}
+			hello.Exts = exts
+			body := hello.Marshal()
+			dg = append(dg, vfLegacyRecord(22, rc.Version, 0, rc.Seq, nil, -1, vfHSFragment(1, uint32(len(body)), h.MsgSeq, 0, uint32(len(body)), body))...)
+			stripped++
+		}
+		if !ok {
+			dg = w.Data
+		}
+		n.Deliver(w.Dst, dg, vfAddrOf(w.From))
+	})
+	cerr, serr := p.Handshake(40 * time.Second)
+	res.NonTrivial(id)
+	res.Count("stripped_supported_versions_cases", 1)
+	if stripped > 0 && cerr == nil && serr == nil && !vfIs13(p.C.Conn) {
+		res.Violate("C11:version-below-highest-common:supported-versions-stripped-from-first-hello",
+			id+": both endpoints allow DTLS 1.3, supported_versions was removed from the cookie-less ClientHello only, and both sides completed at DTLS 1.2", map[string]any{"stripped_sv": full})
+	} else {
+		res.Seen("stripped_supported_versions_outcomes", fmt.Sprintf("%s: stripped=%d client=%s server=%s", id, stripped, vfErrNorm(cerr), vfErrNorm(serr)))
+	}
+	n.SetOnSend(nil)
+	p.Close()
+	synctest.Wait()
+}
+
 func TestVF_C11(t *testing.T) {
 	vfGetPKI()
 	res := vfNewResult("C11", "generated pairs of option sets (version range x suite lists x curves x signature schemes x key type/PSK x EMS policy x "+
@@ -1015,6 +1120,8 @@ func TestVF_C11(t *testing.T) {
 	})
 	vfBubbles(t, 2, func(t *testing.T, i int) { vfC11RSAKeyUnder13(t, res, []string{"server", "client"}[i]) })
 	vfBubbles(t, 2, func(t *testing.T, i int) { vfC11RequireEMSOnResumption(t, res, []string{"client", "server"}[i]) })
+	vfBubbles(t, 2, func(t *testing.T, i int) { vfC11DisjointALPNOnResumption(t, res, i == 1) })
+	vfBubbles(t, 2, func(t *testing.T, i int) { vfC11StrippedSupportedVersions(t, res, i == 1) })
 	res.Floor("negotiations_checked", int64(nc/10))
 	res.Floor("refused_incompatible", int64(nc/20))
 	res.Finish(t)
